@@ -30,7 +30,7 @@ SPELLINGS = ['abs', 'rel', 'dot', 'empty', 'dotslash', 'trailing', 'double', 'do
 
 def budget(tier):
     if tier == 'quick':
-        return {'shards': 16, 'examples': 60, 'steps': 40, 'wall': 240}
+        return {'shards': 16, 'examples': 120, 'steps': 40, 'wall': 240}
     return {'shards': 16, 'examples': 4000, 'steps': 50, 'wall': 2400}
 
 
